@@ -5,6 +5,7 @@ import os
 import random as pyrandom
 import struct
 import sys
+import time
 
 sys.path.insert(0, os.path.dirname(os.path.abspath(__file__)))
 from lib import Check, guarded, reslit, zlit, blit, listlit   # noqa: E402
@@ -107,6 +108,94 @@ def true_extent_curve(center, radius_fn, a0, a1, n=3600):
         lon = lon0 + math.atan2(math.sin(th) * math.sin(d) * math.cos(lat0), math.cos(d) - math.sin(lat0) * math.sin(lat))
         lons.append(math.degrees(lon)); lats.append(math.degrees(lat))
     return min(lons), min(lats), max(lons), max(lats)
+
+
+def sb(x):
+    """sbits with -0.0 read as 0.0 (min/max of the implementation treat them as equal)"""
+    return sbits(float(x) + 0.0)
+
+
+def rand_curved(rng):
+    """a random curved shape (dict understood by c09c.build): circle / ellipse / full ring / wedge, any longitude
+    (one in four next to +-180), |lat| <= 80, radius 20 m .. 200 km log-uniform; wedges incl. angle_min 0 (falsy),
+    negative angles and ranges through north"""
+    lat = round(rng.uniform(-80, 80), 4)
+    lon = round(rng.choice([rng.uniform(-165, 165)] * 3 + [rng.choice([-1, 1]) * rng.uniform(179.5, 179.999)]), 4)
+    r = round(math.exp(rng.uniform(math.log(20.0), math.log(200000.0))), 2)
+    kind = rng.choice(['circle', 'ellipse', 'ring', 'wedge', 'wedge', 'wedge'])
+    if kind == 'circle':
+        return {'t': 'circle', 'c': (lon, lat), 'r': r}
+    if kind == 'ellipse':
+        return {'t': 'ellipse', 'c': (lon, lat), 'a': r, 'b': round(r * rng.uniform(0.1, 1.0), 2), 'rot': round(rng.uniform(0, 360), 2)}
+    rin = round(r * rng.uniform(0.05, 0.9), 2)
+    if kind == 'ring':
+        a0 = float(rng.choice([0, 0, -30, 45]))
+        return {'t': 'ring', 'c': (lon, lat), 'rin': rin, 'rout': r, 'amin': a0, 'amax': a0 + 360.0}
+    a0 = float(rng.choice([0, 0, 5, 45, 90, 200, 350, -60, -200, round(rng.uniform(-360, 360), 1)]))
+    span = float(rng.choice([20, 45, 90, 140, 180, 270, 340, round(rng.uniform(10, 350), 1)]))
+    return {'t': 'wedge', 'c': (lon, lat), 'rin': rin, 'rout': r, 'amin': a0, 'amax': a0 + span}
+
+
+def wedge_true_extents(sh):
+    """extents of the two arcs of a ring / wedge (own geodesy, samples every <= 0.25 degrees of bearing)"""
+    n = max(200, int(4 * (sh['amax'] - sh['amin'])))
+    o = true_extent_curve(sh['c'], lambda th: sh['rout'], sh['amin'], sh['amax'], n)
+    i = true_extent_curve(sh['c'], lambda th: sh['rin'], sh['amin'], sh['amax'], n)
+    return min(o[0], i[0]), min(o[1], i[1]), max(o[2], i[2]), max(o[3], i[3])
+
+
+def extent_error_m(ob, tb, lat):
+    """largest disagreement of two (min lon, min lat, max lon, max lat) in metres on the ground at latitude lat"""
+    m_lat = math.pi * R_EARTH / 180
+    m_lon = m_lat * math.cos(math.radians(lat))
+    return max(abs(ob[0] - tb[0]) * m_lon, abs(ob[1] - tb[1]) * m_lat, abs(ob[2] - tb[2]) * m_lon, abs(ob[3] - tb[3]) * m_lat)
+
+
+# ---- brute-force smallest enclosing cap on unit vectors (reference for the Welzl clause)
+def _uv(p):
+    lo, la = math.radians(p[0]), math.radians(p[1])
+    return (math.cos(la) * math.cos(lo), math.cos(la) * math.sin(lo), math.sin(la))
+
+
+def _dot(a, b):
+    return a[0] * b[0] + a[1] * b[1] + a[2] * b[2]
+
+
+def _cross(a, b):
+    return (a[1] * b[2] - a[2] * b[1], a[2] * b[0] - a[0] * b[2], a[0] * b[1] - a[1] * b[0])
+
+
+def _ang(a, b):
+    c = _cross(a, b)
+    return math.atan2(math.sqrt(_dot(c, c)), _dot(a, b))      # well conditioned at every separation
+
+
+def _unit(a):
+    n = math.sqrt(_dot(a, a))
+    return (a[0] / n, a[1] / n, a[2] / n)
+
+
+def smallest_cap(pts):
+    """(centre unit vector, angular radius): the smallest of the caps that have two of the points as a diameter or
+    three of them on the rim and contain all points (point sets well inside a hemisphere)"""
+    vs = [_uv(p) for p in pts]
+    cands = []
+    for i, a in enumerate(vs):
+        for j in range(i + 1, len(vs)):
+            b = vs[j]
+            cands.append(_unit((a[0] + b[0], a[1] + b[1], a[2] + b[2])))
+            for c in vs[j + 1:]:
+                n = _cross((b[0] - a[0], b[1] - a[1], b[2] - a[2]), (c[0] - a[0], c[1] - a[1], c[2] - a[2]))
+                if _dot(n, n) < 1e-30:
+                    continue
+                n = _unit(n)
+                cands.append(n if _dot(n, a) >= 0 else (-n[0], -n[1], -n[2]))
+    best = None
+    for ctr in cands:
+        rad = max(_ang(ctr, v) for v in vs)
+        if best is None or rad < best[1]:
+            best = (ctr, rad)
+    return best
 
 
 def main():
@@ -240,6 +329,74 @@ def main():
             else:
                 prop_viol.append(dict(case, clause='box circumscribing circle contains its corners'))
 
+    # ---------------- A2. curved shapes after a HISTORY of read-only calls that carry an outline resolution k
+    # Mechanism class: state left behind on the object by read-only calls (memoised outlines, cached properties
+    # filled from a caller-chosen resolution, mutated arguments).  For every curved kind (circle, ellipse, full ring,
+    # wedge) a random selection of the public calls that take `k` (c09c.K_CALLS: exports, outline accessors, binary
+    # predicates; k coarser than / equal to / finer than the default) is evaluated BEFORE bounds is first read; then
+    # bounds, circumscribing_rectangle, circumscribing_circle and the bounds of a MultiGeoPolygon and a
+    # FeatureCollection holding the shape are read in a random order and compared
+    #   * with a FRESH twin built from the same arguments (no history; exact equality - the code is deterministic),
+    #   * with the model: KBnd (bounds of a wedge = min/max of the default outline, taken from the twin), KRectB,
+    #     KUnion (order-preserving integer images of the doubles); circles / ellipses / full rings after a history
+    #     also go through c09c's interval lemmas (every other shape there).
+    NH = 150 if ck.tier == 'quick' else 1500
+    t_fam = {'A2': -time.time()}
+    READS = {
+        'bounds': lambda X, comp: tuple(float(v) for v in X.bounds),
+        'rectangle': lambda X, comp: (lambda R_: (R_.nw_bound.to_float()[:2], R_.se_bound.to_float()[:2], tuple(R_.bounds)))(X.circumscribing_rectangle()),
+        'circle': lambda X, comp: (lambda c_: (c_.center.to_float()[:2], float(c_.radius)))(X.circumscribing_circle()),
+        'multipolygon': lambda X, comp: tuple(MultiGeoPolygon([X, comp]).bounds),
+        'featurecollection': lambda X, comp: tuple(FeatureCollection([X, comp]).bounds),
+    }
+    for it in range(NH):
+        sh = rand_curved(rng)
+        S, T = c09c.build(sh), c09c.build(sh)
+        hist = c09c.k_history(rng)
+        lon, lat = sh['c']
+        comp = GeoBox(Coordinate(lon + 0.25, lat + 1.5), Coordinate(lon + 0.75, lat + 1.0))     # holds max lon / max lat of the unions
+        fresh = {nm: guarded(lambda: READS[nm](T, comp)) for nm in ('bounds', 'rectangle', 'circle', 'multipolygon', 'featurecollection')}
+        boxes = c09c.apply_history(S, hist)
+        order = sorted(READS)
+        rng.shuffle(order)
+        after = {nm: guarded(lambda: READS[nm](S, comp)) for nm in order}
+        ck.count('history:' + sh['t'])
+        nontriv.add(('hist', sh['t'], tuple(sh['c']), tuple(map(tuple, hist))))
+        diffs = [{'read': nm, 'after_history': after[nm], 'fresh_twin': fresh[nm]} for nm in order if after[nm] != fresh[nm]]
+        diffs += [{'read': 'bbox exported by to_geojson(k=.., include_bbox=True)', 'after_history': ('Ok', b_), 'fresh_twin': fresh['bounds']}
+                  for b_ in boxes if ('Ok', b_) != fresh['bounds']]
+        if diffs:
+            pv = {'clause': 'bounds, circumscribing rectangle and circumscribing circle are those of the shape, whatever read-only calls '
+                            '(with an explicit outline resolution k) were made on the object before', 'shape': sh, 'history': hist,
+                  'order_of_reads': order, 'differences': diffs[:3]}
+            if sh['t'] in ('wedge', 'ring') and after['bounds'][0] == 'Ok' and fresh['bounds'][0] == 'Ok':
+                te = wedge_true_extents(sh)
+                pv['bounds_error_over_radius_vs_true_extents'] = {'after_history': extent_error_m(after['bounds'][1], te, lat) / sh['rout'],
+                                                                  'fresh_twin': extent_error_m(fresh['bounds'][1], te, lat) / sh['rout']}
+            prop_viol.append(pv)
+        # the model on what the object with a history answered
+        hm = {'shape': sh, 'history': hist, 'order_of_reads': order}
+        if fresh['bounds'][0] != 'Ok' or after['bounds'][0] != 'Ok':
+            continue
+        fb, ab = fresh['bounds'][1], after['bounds'][1]
+        if after['rectangle'][0] == 'Ok':
+            onw, ose, rb = after['rectangle'][1]
+            add(f'KRectB {bndlit([sb(v) for v in fb])} ({zlit(sb(onw[0]))}, {zlit(sb(onw[1]))}) ({zlit(sb(ose[0]))}, {zlit(sb(ose[1]))}) '
+                f'{bndlit([sb(v) for v in rb])}', dict(hm, k='rect', kind=sh['t'] + '-after-k-history'))
+        if sh['t'] == 'wedge':
+            wv = [(c.longitude, c.latitude) for c in T.bounding_coords()]
+            if max(x for x, _ in wv) - min(x for x, _ in wv) <= 180:          # (across +-180: finding D21)
+                add(f'KBnd {listlit([f"({zlit(sb(x))}, {zlit(sb(y))})" for x, y in wv])} {reslit(("Ok", tuple(sb(v) for v in ab)), bndlit)}',
+                    dict(hm, k='bounds', kind='wedge-after-k-history'))
+        if abs(lon) <= 165:
+            cb = tuple(comp.bounds)
+            for nm in ('multipolygon', 'featurecollection'):
+                if after[nm][0] == 'Ok':
+                    add(f'KUnion {listlit([bndlit([sb(v) for v in fb]), bndlit([sb(v) for v in cb])])} '
+                        f'{reslit(("Ok", tuple(sb(v) for v in after[nm][1])), bndlit)}', dict(hm, k='union', kind=nm + '-after-k-history'))
+
+    t_fam['A2'] += time.time()
+
     # unions whose extreme on one side is EXACTLY 0 (a falsy value), held by the member at every position,
     # the other members not reaching 0 on that side
     for side in range(4):                       # 0 min lon, 1 min lat, 2 max lon, 3 max lat
@@ -327,6 +484,36 @@ def main():
                     if max(errs) > 0.01 * r:
                         prop_viol.append({'clause': 'curved bounds within 1% of the radius', 'kind': kind, 'center': [lon, lat], 'r': r,
                                           'bounds': ob, 'true_extent': tb, 'err_m': max(errs)})
+    # D.2b WEDGE bounds within 1% of the radius of the true extents of the two arcs - judged on a fresh object AND after
+    #      every kind of read-only call that carries an outline resolution k (mechanism class: see A2; here with the
+    #      property's own oracle, on a fixed corpus because no theorem decides the 1% figure for wedges).  Measured on
+    #      the pinned tree: worst 0.22% of the radius, fresh and after every history alike (the default resolution of
+    #      one sample per <= 10 degrees of bearing allows at most r (1 - cos 5 deg) = 0.38%).
+    WEDGE_HISTORIES = [[], [['to_wkt', 3]], [['to_polygon', 5]], [['to_geojson', 4]], [['to_geojson+bbox', 4]], [['intersects_shape', 3]],
+                       [['bounding_coords', 2], ['contains_shape', 100]], [['linear_rings', 100]], [['edges', 3], ['to_wkt', None]],
+                       [['bounding_edges', 1]]]
+    wedge_worst = 0.0
+    t_fam['D.2b'] = -time.time()
+    for lon, lat in ((0.0, 0.0), (21.4, 44.0), (-64.2, -29.5), (133.7, 75.0), (-8.0, -75.0)):
+        for rin, rout in ((60.0, 350.0), (3000.0, 10_000.0)):
+            for a0, a1 in ((45.0, 135.0), (200.0, 340.0), (-60.0, 60.0), (100.0, 260.0), (10.0, 95.0), (350.0, 370.0), (0.0, 180.0), (-135.0, -45.0)):
+                sh = {'t': 'wedge', 'c': (lon, lat), 'rin': rin, 'rout': rout, 'amin': a0, 'amax': a1}
+                te = wedge_true_extents(sh)
+                for hist in WEDGE_HISTORIES:
+                    W = c09c.build(sh)
+                    judged = [('bbox exported during the history', b_) for b_ in c09c.apply_history(W, hist)]
+                    judged.append(('bounds', tuple(W.bounds)))
+                    judged.append(('bounds of the circumscribing rectangle', tuple(W.circumscribing_rectangle().bounds)))
+                    corpus_n += 1
+                    for what, ob in judged:
+                        err = extent_error_m(ob, te, lat)
+                        wedge_worst = max(wedge_worst, err / rout)
+                        if not err <= 0.01 * rout + 0.0056:
+                            prop_viol.append({'clause': 'wedge bounds within 1% of the radius of the true extents (radius <= 10 km, |lat| <= 75)',
+                                              'shape': sh, 'history_before_first_read_of_bounds': hist, 'what': what, 'bounds': ob,
+                                              'true_extent': te, 'err_m': err, 'err_over_radius': err / rout})
+    t_fam['D.2b'] += time.time()
+    ck.cov['wedge_bounds_worst_error_over_radius'] = wedge_worst
     # D.3 polygon circumscribing circle (Welzl): fixed polygons x fixed seeds; triaged on the pinned tree
     welzl_corpus = []
     for i in range(12):
@@ -341,6 +528,7 @@ def main():
     for pi_, pts in enumerate(welzl_corpus):
         P = GeoPolygon([Coordinate(*p) for p in pts])
         rads = []
+        ref_m = smallest_cap(pts)[1] * R_EARTH      # minimality against the brute-force cap (pinned tree: 1.3e-12 relative)
         for seed in range(8):
             pyrandom.seed(seed)
             r_ = guarded(lambda: P.circumscribing_circle())
@@ -352,6 +540,9 @@ def main():
             rads.append(cc.radius)
             if ex > 1e-6:
                 welzl_bad.append({'polygon': pts, 'seed': seed, 'excess_over_radius': ex})
+            elif abs(cc.radius - ref_m) > 1e-6 * ref_m:
+                welzl_bad.append({'polygon': pts, 'seed': seed, 'radius': cc.radius, 'smallest_enclosing_radius': ref_m,
+                                  'relative_difference': abs(cc.radius - ref_m) / ref_m})
         if rads and (max(rads) - min(rads)) / max(rads) > 1e-6:
             welzl_bad.append({'polygon': pts, 'seed_spread': (max(rads) - min(rads)) / max(rads)})
     # D.3b small polygons (about 0.05-0.08 degrees across, mid and high latitudes) whose smallest enclosing circle is
@@ -399,6 +590,68 @@ def main():
                                   'relative_difference': mn, 'corpus': 'small acute triples'})
         if rads and (max(rads) - min(rads)) / max(rads) > 1e-6:
             welzl_bad.append({'polygon': pts, 'seed_spread': (max(rads) - min(rads)) / max(rads), 'corpus': 'small acute triples'})
+    # D.3c polygons STRADDLING THE ANTIMERIDIAN (vertices on both sides of +-180, none within 0.001 degrees of it: a
+    #      vertex exactly at +-180 is a separate matter, see the note below).  Mechanism class: planar lon/lat
+    #      arithmetic (orientation, cross products, midpoints) inside the unit-vector algorithm that is only right
+    #      after unwrapping edges across +-180.  7 outlines (acute / obtuse triangle, kite, obtuse sliver, quad,
+    #      pentagon, notched hexagon: support sets of two points, of three points from one side and of three points
+    #      from both sides) x 8 places (|lat| 0..66, 0.2 .. 24 degrees across), every other combination; per polygon
+    #      8 RNG seeds: enclosure (1e-6 r), radius = brute-force smallest enclosing cap over all pairs / triples of
+    #      unit vectors (1e-6 relative; measured on the pinned tree 3.6e-11, and 5.1e-10 over the seed author's own
+    #      corpus and 60 seeds, so the 1e-5 used there is not needed), centre, seed independence.
+    #      NOTE (pinned tree, reported): with a vertex EXACTLY at longitude +-180 the pinned code already returns the
+    #      antipodal cap for some seeds (Coordinate(180, .., _bounded=False) is folded back to -180, so
+    #      ensure_edge_bounds / is_counter_clockwise mis-orient the triple) - such vertices are kept out of this corpus.
+    AM_OUTLINES = [('acute triangle', [(-0.6, -0.3), (0.7, -0.2), (0.1, 0.8)]),
+                   ('obtuse triangle', [(-1.0, 0.0), (1.1, 0.1), (0.25, 0.3)]),
+                   ('kite', [(-0.9, 0.0), (0.0, -0.5), (1.0, 0.1), (0.1, 0.9)]),
+                   ('obtuse sliver', [(-1.5, 0.0), (0.0, -0.1), (1.5, 0.05), (0.0, 0.15)]),
+                   ('quad', [(-0.6, -0.2), (0.45, -0.55), (0.65, 0.3), (-0.15, 0.6)]),
+                   ('pentagon', [(-1.0, -0.6), (0.4, -1.1), (1.2, 0.1), (0.3, 1.0), (-0.9, 0.7)]),
+                   ('notched hexagon', [(-2.0, -1.0), (0.0, -0.2), (2.2, -1.3), (1.8, 1.4), (0.1, 0.6), (-1.7, 1.9)])]
+    AM_PLACES = [(179.95, 0.0, 0.15), (179.8, 52.0, 1.0), (-179.85, -18.0, 0.5), (179.99, 66.0, 0.2), (-179.6, 31.0, 3.0), (179.1, -41.0, 8.0),
+                 (-179.93, 7.0, 4.5), (179.55, -63.0, 2.0)]
+    am_worst = [0.0, 0.0, 0.0]
+    am_n = 0
+    t_fam['D.3c'] = -time.time()
+    for si, (name, offs) in enumerate(AM_OUTLINES):
+        for pi_, (lon0, lat0, sc) in enumerate(AM_PLACES):
+            if (si + pi_) % 2:
+                continue
+            pts = [(round((lon0 + dx * sc + 180.0) % 360.0 - 180.0, 5), round(lat0 + dy * sc, 5)) for dx, dy in offs]
+            lons = [p[0] for p in pts]
+            assert max(lons) - min(lons) > 180 and all(abs(abs(l_) - 180) > 1e-3 for l_ in lons), (name, lon0, lat0, sc)
+            am_n += 1
+            ref_c, ref_a = smallest_cap(pts)
+            ref_m = ref_a * R_EARTH
+            P = GeoPolygon([Coordinate(*p) for p in [*pts, pts[0]]])
+            rads = []
+            tag = {'polygon': pts, 'corpus': 'antimeridian: ' + name, 'smallest_enclosing_radius': ref_m}
+            for seed in range(8):
+                pyrandom.seed(seed)
+                r_ = guarded(lambda: P.circumscribing_circle())
+                corpus_n += 1
+                if r_[0] != 'Ok':
+                    welzl_bad.append(dict(tag, seed=seed, raised=r_[1])); continue
+                cc = r_[1]
+                cv = _uv((cc.center.longitude, cc.center.latitude))
+                ex = (max(_ang(cv, _uv(p)) for p in pts) * R_EARTH - cc.radius) / cc.radius
+                mn = abs(cc.radius - ref_m) / ref_m
+                off = _ang(cv, ref_c) * R_EARTH / ref_m
+                rads.append(cc.radius)
+                if ex > 1e-6:
+                    welzl_bad.append(dict(tag, seed=seed, radius=cc.radius, center=cc.center.to_float()[:2], excess_over_radius=ex))
+                elif mn > 1e-6 or off > 1e-3:
+                    welzl_bad.append(dict(tag, seed=seed, radius=cc.radius, center=cc.center.to_float()[:2], relative_difference=mn,
+                                          centre_offset_over_radius=off))
+                else:
+                    am_worst = [max(am_worst[0], ex), max(am_worst[1], mn), max(am_worst[2], off)]
+            if rads and (max(rads) - min(rads)) / max(rads) > 1e-6:
+                welzl_bad.append(dict(tag, seed_spread=(max(rads) - min(rads)) / max(rads), radii=[min(rads), max(rads)]))
+    t_fam['D.3c'] += time.time()
+    ck.cov['seconds_history_and_antimeridian_families'] = {k_: round(v_, 2) for k_, v_ in t_fam.items()}
+    ck.cov['welzl_antimeridian_polygons'] = am_n
+    ck.cov['welzl_antimeridian_worst'] = {'excess_over_radius': am_worst[0], 'radius_vs_smallest': am_worst[1], 'centre_offset_over_radius': am_worst[2]}
     ck.cov['welzl_small_polygons_worst'] = {'excess_over_radius': small_worst[0], 'radius_vs_smallest': small_worst[1]}
     ck.cov['fixed_corpus_cases'] = corpus_n
     ck.cov['welzl_corpus_disagreements'] = welzl_bad[:10]
@@ -428,7 +681,9 @@ def main():
     listed = [f['replay'] for f in ck.findings if f['signature'] == 'welzl_fixed_replay' and f['status'] == 'open']
     for wb in welzl_bad:
         if not any(wb.get('polygon') == [list(p) for p in l_['polygon']] or wb.get('polygon') == [tuple(p) for p in l_['polygon']] for l_ in listed):
-            prop_viol.append(dict(wb, clause='polygon circumscribing circle (Welzl) on the fixed corpus'))
+            which = ('does not depend on the RNG seed' if 'seed_spread' in wb else 'contains every vertex (1e-6 r)' if 'excess_over_radius' in wb
+                     else 'is the smallest enclosing circle' if 'relative_difference' in wb else 'is returned (no exception)')
+            prop_viol.append(dict(wb, clause='polygon circumscribing circle (Welzl) on the fixed corpus: ' + which))
 
     ck.cov['evaluations'] = len(cases) + corpus_n
     ck.cov['distinct_nontrivial'] = len(nontriv)
@@ -437,14 +692,25 @@ def main():
     bad, broken = ck.corr('bounds', 'From GV Require Import Prelude ShapeM BoundsM ShapeK BoundsK.', 'bcheck', cases)
     for i in bad[:4]:
         ck.violation({'kind': 'model-vs-implementation', 'case': meta[i], 'gallina_case': cases[i], 'theorems': 'C09_* (Props/C09.v)'})
-    for pv in prop_viol[:4]:
+    # at most 6 replays: one per clause first (so that a flood from one family cannot hide another), then in order
+    first = {}
+    for pv in prop_viol:
+        first.setdefault(pv.get('clause'), pv)
+    shown = list(first.values())[:6]
+    shown += [pv for pv in prop_viol if not any(pv is x for x in shown)][: max(0, 4 - len(shown))]
+    for pv in shown:
         ck.violation({'kind': 'property-fails-on-implementation', 'case': pv})
     c09c.run(ck)
     ck.finish(rule=c09c.RULE + '. ' + 'seeded random vertex shapes on a half-degree grid (polygons, linestrings incl. retraced, points, boxes), their circumscribing '
                    'rectangles, unions over multi-shapes / FeatureCollection / Track, centroid+farthest-vertex circles (linestring, multi-*, wedge) with the '
-                   'implementation own distances as order-preserving integers, box circles; FIXED corpora (same for every seed) for the clauses no theorem '
-                   'decides: curved-shape circles, curved bounds vs densely sampled true extents (1%), Welzl polygon circle (12 polygons x 8 RNG seeds). '
-                   'non-trivial = distinct vertex sets / bounds lists / distance lists',
+                   'implementation own distances as order-preserving integers, box circles; seeded random curved shapes (circle / ellipse / full ring / '
+                   'wedge, any longitude, |lat| <= 80, 20 m .. 200 km) on which 1-3 random read-only calls carrying an outline resolution k (coarser, '
+                   'equal, finer than the default) run BEFORE bounds / circumscribing rectangle / circle / multi-shape and collection bounds are read in '
+                   'random order, compared exactly with a fresh twin and with the model (KBnd on the twin default outline, KRectB, KUnion); FIXED corpora '
+                   '(same for every seed) for the clauses no theorem decides: curved-shape circles, curved bounds vs densely sampled true extents (1%), '
+                   'wedge bounds vs true extents (1%) fresh and after 9 fixed k-histories (80 wedges), Welzl polygon circle (12 polygons x 8 RNG seeds; '
+                   '16 small acute triples; 28 polygons straddling the antimeridian vs the brute-force smallest enclosing cap). '
+                   'non-trivial = distinct vertex sets / bounds lists / distance lists / (shape, history) pairs',
               assumptions=['distance function abstract in the theorems (any function); C07 relates it to the great circle',
                            'NOT decided by proof: polygon Welzl circle (correctness, minimality, seed independence), the 1% figure for WEDGE bounds, '
                            '1e-6 enclosure for circle/ellipse/ring circles in floats - exercised on fixed corpora only'] + c09c.ASSUMPTIONS)
@@ -455,7 +721,27 @@ if __name__ == '__main__':
         import json
         r = json.load(open(sys.argv[sys.argv.index('--replay') + 1]))
         print(json.dumps(r, indent=1))
-        if isinstance(r.get('case'), dict) and r['case'].get('k') == 'curved-bounds':
-            c09c.replay(r['case'])
+        cs = r.get('case') if isinstance(r.get('case'), dict) else {}
+        if cs.get('k') == 'curved-bounds':
+            c09c.replay(cs)
+        elif 'shape' in cs and ('history' in cs or 'history_before_first_read_of_bounds' in cs):
+            hist = cs.get('history', cs.get('history_before_first_read_of_bounds'))
+            S, T = c09c.build(cs['shape']), c09c.build(cs['shape'])
+            print('history replayed first:', hist, '-> bboxes exported:', c09c.apply_history(S, hist))
+            for nm, X in (('after the history', S), ('fresh twin      ', T)):
+                cc = X.circumscribing_circle()
+                print(nm, 'bounds', tuple(X.bounds), 'rectangle', tuple(X.circumscribing_rectangle().bounds),
+                      'circle', cc.center.to_float()[:2], cc.radius)
+            if cs['shape']['t'] in ('wedge', 'ring'):
+                te = wedge_true_extents(cs['shape'])
+                print('true extents of the arcs:', te, '; error / radius: after the history',
+                      extent_error_m(S.bounds, te, cs['shape']['c'][1]) / cs['shape']['rout'], ', fresh twin',
+                      extent_error_m(T.bounds, te, cs['shape']['c'][1]) / cs['shape']['rout'])
+        elif 'polygon' in cs and 'seed' in cs:
+            pts = [tuple(p) for p in cs['polygon']]
+            pyrandom.seed(cs['seed'])
+            cc = GeoPolygon([Coordinate(*p) for p in [*pts, pts[0]]]).circumscribing_circle()
+            print('implementation now: centre', cc.center.to_float()[:2], 'radius', cc.radius,
+                  '; brute-force smallest enclosing cap radius', smallest_cap(pts)[1] * R_EARTH)
     else:
         main()
